@@ -495,10 +495,17 @@ func (s *ReceiveStream) getControlFrame(now monotime.Time) (_ ackhandler.Frame, 
 	}
 
 	s.queuedMaxStreamData = false
+	offset := s.flowController.GetWindowUpdate(now)
+	// The flow controller returns 0 if there is nothing to advertise,
+	// for example because the final size of the stream became known in the meantime.
+	// Don't send a MAX_STREAM_DATA frame that would lower the advertised limit.
+	if offset == 0 {
+		return ackhandler.Frame{}, false, false
+	}
 	return ackhandler.Frame{
 		Frame: &wire.MaxStreamDataFrame{
 			StreamID:          s.streamID,
-			MaximumStreamData: s.flowController.GetWindowUpdate(now),
+			MaximumStreamData: offset,
 		},
 	}, true, false
 }
